@@ -713,6 +713,12 @@ class Interp:
                 return INF          # a symbolic bound: obligations assume INF > every finite quantity they mention
             if m.group(1) == 'NEG_INFINITY':
                 return -INF
+        m = re.fullmatch(r'(?:core|std)::f64::consts::(\w+)', t)
+        if m and m.group(1) in ('SQRT_2', 'FRAC_1_SQRT_2'):
+            # algebraic constants: a fresh positive real with its defining equation
+            s_ = z3.Real('const!' + m.group(1))
+            st.defs.append(z3.And(s_ > 0, (s_ * s_ == 2) if m.group(1) == 'SQRT_2' else (2 * s_ * s_ == 1)))
+            return s_
         m = re.fullmatch(r'(?:core::num::<impl )?([iu](?:8|16|32|64|128|size))>?::(MIN|MAX)', t)
         if m:
             lo, hi = INT_RANGE[m.group(1)]
